@@ -132,6 +132,26 @@ theorem markerStep_simple (pfuel : Nat) (st : LoopSt) (s s1 : PS) (m : Marker)
   simp only [hprops, getProp, List.find?_nil, Option.map_none]
   cases (s1.pos == 0 || isSpace st.last) <;> simp
 
+/-- `markerStep` for a close marker, whatever its name: a processor (`[/nomarkup]`, `[/select]` …) has nothing to do on
+a close marker and returns the empty text; a marker without properties that is not self-closing never trims -/
+theorem markerStep_close (pfuel : Nat) (st : LoopSt) (s s1 : PS) (m : Marker)
+    (hm : parseAttributeMarker pfuel s = .ok m s1) (hprops : m.props = []) (htag : m.tag = .close) :
+    markerStep pfuel st s = .ok { out := st.out, markers := st.markers ++ [m], last := '[' } s1 := by
+  cases hrepl : isReplacement m.name with
+  | false =>
+    have := markerStep_simple pfuel st s s1 m hm hprops hrepl
+    simpa [htag, afterTrim] using this
+  | true =>
+    have hnot : m.tag ≠ .opn ∧ m.tag ≠ .selfClose := by rw [htag]; exact ⟨by decide, by decide⟩
+    have hget : getProp m.props "trimwhitespace" = none := by rw [hprops]; rfl
+    have hsc : (m.tag == Tag.selfClose) = false := by rw [htag]; decide
+    have hproc : processReplacementMarker m s1 = .ok "" s1 := by
+      unfold processReplacementMarker
+      rw [if_pos hnot]; rfl
+    simp only [markerStep, bind, P.bind, hm, getPos, hrepl, if_true, hproc, pure,
+      P.pure, decideTrim, hget, hsc, Bool.false_and]
+    cases (s1.pos == 0 || isSpace st.last) <;> simp [trimOne_eq, afterTrim, P.pure]
+
 theorem isReplacement_ofList (n : List Char) : isReplacement (String.ofList n) = isReplName n := by
   simp only [isReplacement, isReplName, replNames, List.contains_cons, List.contains_nil, Bool.or_false]
   have h : ∀ s : String, (String.ofList n == s) = (n == s.toList) := by
@@ -415,9 +435,8 @@ theorem attrOf_eq (o : Marker) (p : Nat) : attrOf o o.name p = closeAttr (toOpen
   simp [attrOf, closeAttr, toOpen, toPropertyMap_eq]
 
 theorem stepSim_close (pfuel : Nat) (n : List Char) (ws : List (List Char)) (hn : isIdent n = true)
-    (hr : isReplName n = false) (hws : wsOk ws = true) : StepSim pfuel (.close n ws) := by
+    (hws : wsOk ws = true) : StepSim pfuel (.close n ws) := by
   intro S S' R st s _ hinv hstep
-  have hrepl : isReplacement (String.ofList n) = false := by rw [isReplacement_ofList]; exact hr
   simp only [stepChunk, bind, Option.bind] at hstep
   cases hrl : removeLast (String.ofList n) S.opens with
   | none => simp [hrl] at hstep
@@ -441,9 +460,7 @@ theorem stepSim_close (pfuel : Nat) (n : List Char) (ws : List (List Char)) (hn 
     simp only [startsWithSpace, isSpace_lbracket, Bool.and_false, Bool.false_eq_true, if_false, Nat.add_zero] at hrest hsrc
     subst hrest hsrc
     have hm := marker_close (slot ws 0) (slot ws 1) a t (slot ws 2) R S.src st.out.length pfuel hw0 hw1 hw2 hid
-    have hms := markerStep_simple pfuel st _ _ _ hm rfl hrepl
-    simp only [show (Tag.close == Tag.selfClose) = false by decide, Bool.and_false, afterTrim, Bool.false_and,
-      Bool.false_eq_true, if_false] at hms
+    have hms := markerStep_close pfuel st _ _ _ hm rfl rfl
     refine ⟨1, _, _, ?_, ?_, fun fuel => mainLoop_marker pfuel _ fuel st _ S.src pos _ hms⟩
     · subst hstep
       obtain ⟨opensM, hop, hb⟩ := hinv.build
@@ -546,7 +563,7 @@ theorem stepSim_core (pfuel : Nat) (c : Chunk) (h : isCore c = true) : StepSim (
         exact stepSim_selfClose pfuel n ws h.1.1 h.2 h.1.2
   | close n ws =>
     simp only [chunkOk, Bool.and_eq_true, Bool.not_eq_true'] at h
-    exact stepSim_close (pfuel + 1) n ws h.1.1 h.2 h.1.2
+    exact stepSim_close (pfuel + 1) n ws h.1.1 h.1.2
   | closeAll ws =>
     simp only [chunkOk, Bool.and_true] at h
     exact stepSim_closeAll (pfuel + 1) ws h
